@@ -35,6 +35,9 @@ type expOut struct {
 type c19Case struct {
 	Steps  [][]expOut `json:"steps"`  // output set per step
 	Stream []string   `json:"stream"` // A | B | C | noise
+	// SplitAt > 0: the subprocess prints the first SplitAt lines at once and the rest a moment later (a second
+	// write, so a second read on the tool's side)
+	SplitAt int `json:"split_at,omitempty"`
 }
 
 var c19Msgs = map[string]string{"A": `{"a":1}`, "B": `{"b":1}`, "C": `{"c":1}`, "noise": `this is not json`,
@@ -135,11 +138,19 @@ func c19Run(dir string, cs c19Case, timeout time.Duration) (passed bool, errText
 		lines = append(lines, c19Msgs[sym])
 	}
 	f := filepath.Join(dir, "stream.txt")
-	os.WriteFile(f, []byte(strings.Join(lines, "\n")+"\n"), 0o644)
+	script := "cat " + f + "; cat > /dev/null"
+	if cs.SplitAt > 0 && cs.SplitAt < len(lines) {
+		f2 := filepath.Join(dir, "stream2.txt")
+		os.WriteFile(f, []byte(strings.Join(lines[:cs.SplitAt], "\n")+"\n"), 0o644)
+		os.WriteFile(f2, []byte(strings.Join(lines[cs.SplitAt:], "\n")+"\n"), 0o644)
+		script = "cat " + f + "; sleep 0.05; cat " + f2 + "; cat > /dev/null"
+	} else {
+		os.WriteFile(f, []byte(strings.Join(lines, "\n")+"\n"), 0o644)
+	}
 	s := c19Session(cs, timeout)
 	var err error
 	if p, pm, where := vh.Trap(func() {
-		err = s.Run(context.Background(), "", "sh", "-c", "cat "+f+"; cat > /dev/null")
+		err = s.Run(context.Background(), "", "sh", "-c", script)
 	}); p {
 		return false, "", pm + " @" + where
 	}
@@ -173,6 +184,9 @@ func C19(c *vh.Ctx) {
 		c.Eval()
 		want := refPass(cs)
 		timeout := 60 * time.Millisecond // a short timeout can only turn a pass into a fail
+		if cs.SplitAt > 0 {
+			timeout = 400 * time.Millisecond // long enough for the delayed lines to arrive
+		}
 		if want && refPassMode(cs, true) {
 			timeout = 20 * time.Second // never fires when the tool passes
 		}
@@ -214,7 +228,7 @@ func C19(c *vh.Ctx) {
 	maxSet, maxStream := c.Pick(2, 3), c.Pick(3, 4)
 	c.Bound("output_set_max", maxSet)
 	c.Bound("stream_max", maxStream)
-	c.Rule("sessions of one step with every output set (multiset) of up to the bound over {pattern A, pattern B} x {expected, inverted} x guard {none, accept, reject}, a second family with a pattern that matches one message in several ways (an array variable) with guards that accept all / one of the ways, a third family with emitted lines of 6 and 9 kilobytes (longer than a default read buffer; the whole stream stays below the pipe buffer, because the tool does not drain the output of a subprocess it has stopped listening to), and two-step sessions over a reduced set list; every stream up to the bound over {A, B, C, a non-JSON noise line} including repetitions; the tool drives a scripted subprocess that prints the stream; oracle: the tool may pass only if the reference pass conditions hold (most permissive consumption). Cases the reference fails run with a short timeout (which can only turn pass into fail). non-trivial = reference says pass.")
+	c.Rule("sessions of one step with every output set (multiset) of up to the bound over {pattern A, pattern B} x {expected, inverted} x guard {none, accept, reject}, a second family with a pattern that matches one message in several ways (an array variable) with guards that accept all / one of the ways, a third family with emitted lines of 6 and 9 kilobytes (longer than a default read buffer; the whole stream stays below the pipe buffer, because the tool does not drain the output of a subprocess it has stopped listening to), two-step sessions over a reduced set list, also with the stream arriving in two writes; every stream up to the bound over {A, B, C, a non-JSON noise line} including repetitions; the tool drives a scripted subprocess that prints the stream; oracle: the tool may pass only if the reference pass conditions hold (most permissive consumption). Cases the reference fails run with a short timeout (which can only turn pass into fail). non-trivial = reference says pass.")
 	kinds := []expOut{}
 	for _, p := range []string{"A", "B"} {
 		for _, inv := range []bool{false, true} {
@@ -333,8 +347,25 @@ func C19(c *vh.Ctx) {
 			one(c19Case{Steps: [][]expOut{set}, Stream: st})
 		}
 	}
+	// two-step sessions whose stream arrives in two writes: what the first step's reader had already taken in
+	// belongs to the second step as much as what arrives later
+	for _, s1 := range [][]expOut{{{Pat: "A"}}, {{Pat: "B"}}} {
+		for _, s2 := range [][]expOut{{{Pat: "B", Inverted: true}}, {{Pat: "A", Inverted: true}}, {{Pat: "A"}, {Pat: "B", Inverted: true}}} {
+			for _, st := range streams {
+				for k := 1; k < len(st); k++ {
+					idx++
+					if !c.Mine(idx) || c.Expired() {
+						continue
+					}
+					one(c19Case{Steps: [][]expOut{s1, s2}, Stream: st, SplitAt: k})
+				}
+			}
+		}
+	}
 	// two-step sessions: the stream is split across the steps by consumption
-	small := [][]expOut{{{Pat: "A"}}, {{Pat: "B"}}, {{Pat: "A"}, {Pat: "B"}}, {{Pat: "A"}, {Pat: "B", Inverted: true}}, {{Pat: "A", Guard: "reject"}}}
+	small := [][]expOut{{{Pat: "A"}}, {{Pat: "B"}}, {{Pat: "A"}, {Pat: "B"}}, {{Pat: "A"}, {Pat: "B", Inverted: true}}, {{Pat: "A", Guard: "reject"}},
+		// steps that only forbid: whatever the earlier step left unread still counts
+		{{Pat: "B", Inverted: true}}, {{Pat: "A", Inverted: true}}}
 	for _, s1 := range small {
 		for _, s2 := range small {
 			for _, st := range streams {
